@@ -175,6 +175,20 @@ def run_plan(params, writes, fplan, log):
     hl.gzip = fs.gzip_module()
     hl.time = clock
     hl.open = fs.open_builtin()
+    # belt and braces: whatever way the module reaches gzip.open / open, paths under /sim/ end up in the SimFS
+    import builtins
+    real_gz_open, real_builtin_open = gzip.open, builtins.open
+
+    def _gz_router(path, mode='rb', *a, **k):
+        if isinstance(path, str) and path.startswith('/sim/'):
+            return fs._open(path, mode, gz=True, level=(a[0] if a else k.get('compresslevel', 9)))
+        return real_gz_open(path, mode, *a, **k)
+
+    def _open_router(path, mode='r', *a, **k):
+        if isinstance(path, str) and path.startswith('/sim/'):
+            return fs._open(path, mode, gz=False, level=None)
+        return real_builtin_open(path, mode, *a, **k)
+    gzip.open, builtins.open = _gz_router, _open_router
     api = params['api']
     method = params['method']
     paired = params['paired'] and api == 'fastqhandle'
@@ -258,11 +272,14 @@ def run_plan(params, writes, fplan, log):
                 viol.append({'property': PROPERTY, 'class': 'close-raised', 'signature': type(e).__name__,
                              'detail': {'error': repr(e)[:200], 'plan': fplan}})
     finally:
+        gzip.open, builtins.open = real_gz_open, real_builtin_open
         hl.gzip, hl.time = saved[0], saved[1]
         if saved[2] is None:
             hl.__dict__.pop('open', None)
         else:
             hl.open = saved[2]
+    if writes and fs.attempts == 0:
+        raise RuntimeError('SimFS seam not effective: HandleLimiter wrote without any open() reaching the simulated file system')
     # ---- post-mortem oracle ---------------------------------------------
     if fs.open_count != 0:
         viol.append({'property': PROPERTY, 'class': 'handle-leak', 'signature': 'open-after-close',
